@@ -590,10 +590,11 @@ func (fc *FontConfigurationGotext) splitFirstLine(hyphenCache map[HyphenDictKey]
 	// 	could, after hyphenation, fit (partially) on the first line
 	// That's why we either try to hyphenate the end of the first line or
 	// the start of the second
-	nextWord := secondLineText
 	if firstLine.Width > maxWidthV {
-		nextWord = firstLineText
+		// try to hyphenate the first word
+		firstLineText, secondLineText = nil, text
 	}
+	nextWord := secondLineText
 
 	// cut at the first space
 	if i := index(secondLineText, ' '); i != -1 {
